@@ -3,10 +3,10 @@
 CHECK = {
     "runs": [
         # gcc ASan+UBSan, asserts on (the wire-type check of deserialize_field is debug-only)
-        {"harness": "c11_serialize", "variant": "asan", "scale": 0.35, "scale_thorough": 0.25, "args": [],
+        {"harness": "c11_serialize", "variant": "asan", "scale": 0.15, "scale_thorough": 0.3, "args": [],
          "leaks": False},   # leak checking is not part of C11; babylon's thread-local singletons leak by design
         # -O2 -DNDEBUG (the NDEBUG code path of the parser), ~10x faster: carries the volume
-        {"harness": "c11_serialize", "variant": "plain", "scale": 1.0, "args": []},
+        {"harness": "c11_serialize", "variant": "plain", "scale": 2.0, "scale_thorough": 1.0, "args": []},
         # clang libFuzzer, oracle inside the target. Thorough tier only until the three proposed fixes are in
         # /repo: on the unfixed tree the fuzzer reaches the known hang (length-read failure ignored) within
         # seconds and libFuzzer cannot continue past a crash in-process. Move to ("quick", "thorough") afterwards
@@ -37,7 +37,7 @@ CHECK = {
                    "random, records permuted), plus an older struct reading a newer struct's bytes. Hostile input: valid "
                    "encodings are truncated, given over-long/unterminated varints, wrong wire types, wrong/huge lengths, "
                    "duplicated/transplanted/unknown/invalid records, random bytes and 10..10^5-deep nesting; the parser "
-                   "must return (a death, 8 s of CPU or 1.5 GB RSS in one parse is a violation) and every accepted value "
+                   "must return (a death, 3 s of CPU or 1.5 GB RSS in one parse is a violation) and every accepted value "
                    "must serialize to its predicted size and parse back to itself. Held on the inputs tried, not a proof."),
     "level_note": ("Trusted: protobuf 3.21 runtime and protoc output as the compatibility reference, the sanitizer "
                    "runtimes, the harness' own equality/emptiness predicates. Time-outs are measured in CPU time of the "
